@@ -291,6 +291,7 @@ def execute(plan, props):
                 fired = bool(faulted and SIM.read_fault and SIM.read_fault.get("fired"))
                 SIM.read_fault = None
             load_events = SIM.since(mark)
+            returned_despite_fault = fired and err is None
             if fired:
                 # under an injected read error a load may fail - it must never return wrong data;
                 # and the same selection asked again (no fault) must be right
@@ -330,6 +331,16 @@ def execute(plan, props):
             if "C11" in props and w.backend in world.RECORDED and err is None and not fired:
                 violations.extend(check_load_events(load_events, sel, cls, name, n, r_eff, ext,
                                                     fsize, rel))
+            elif "C11" in props and w.backend in world.RECORDED and returned_despite_fault:
+                # the storage failed one request and the load returned all the same (the library
+                # asked again by itself): the request that FAILED carried no data and is not
+                # counted; everything that was served is held to the rule as usual
+                bump("loads-returned-despite-fault")
+                served = [ev for i, ev in enumerate(load_events)
+                          if not (i + 1 < len(load_events) and load_events[i + 1][2] == "eio")
+                          and ev[2] != "eio"]
+                violations.extend(check_load_events(served, sel, cls + ":self-retried", name, n,
+                                                    r_eff, ext, fsize, rel))
         if "C02" in props:
             # results handed out earlier must still hold after the later reads through the same
             # variable (a result that aliases a reused buffer changes behind the caller's back)
